@@ -13,7 +13,7 @@ import Bng.Model.TokenBucket
     run <prog> <hexframe> len=<skb->len>  => <ret> same [prio=N] [ev=N] | <ret> <hexframe-after> … | FAULT …
 
   Monitors (C07, on the native program's answer): `fault`, `undefined-verdict` (not TC_ACT_OK / TC_ACT_SHOT),
-  `pass-modified` (frame changed under TC_ACT_OK).
+  `pass-modified` (frame changed, under TC_ACT_OK or TC_ACT_SHOT: these programs contain no packet store).
 -/
 namespace Bng.Drv.TcSafeDrv
 open Bng Bng.Drv Bng.C Bng.TcSafe
@@ -30,7 +30,8 @@ def monitors (impl : String) : List (String × String × String) :=
     match v.toNat? with
     | some n =>
       (if n != 0 && n != 2 then [("undefined-verdict", "none", v)] else []) ++
-      (if n == 0 && after != "same" then [("pass-modified", "none", "frame_changed_under_TC_ACT_OK")] else [])
+      -- the theorems claim "never modified", under TC_ACT_OK and under TC_ACT_SHOT alike
+      (if after != "same" then [("pass-modified", "none", if n == 0 then "frame_changed_under_TC_ACT_OK" else "frame_changed_under_TC_ACT_SHOT")] else [])
     | none => [("undefined-verdict", "none", v)]
   | _ => [("undefined-verdict", "none", "unparseable")]
 
